@@ -122,5 +122,23 @@ func HarnessC13LocalFSConfinement() {
 	if len(names) != 2 || names[0] != "base" || names[1] != "s" {
 		unchanged = false
 	}
+	// every symbolic link created inside the base points inside the base
+	filepath.WalkDir(base, func(path string, d os.DirEntry, err error) error {
+		if err != nil || d.Type()&os.ModeSymlink == 0 {
+			return nil
+		}
+		target, rerr := os.Readlink(path)
+		if rerr != nil {
+			return nil
+		}
+		if !filepath.IsAbs(target) {
+			target = filepath.Join(filepath.Dir(path), target)
+		}
+		target = filepath.Clean(target)
+		if target != base && !strings.HasPrefix(target, base+"/") {
+			unchanged = false
+		}
+		return nil
+	})
 	verifrt.Assert(unchanged, "host-path-inside-base")
 }
